@@ -5,14 +5,16 @@ sys.path.insert(0, os.path.join(os.path.dirname(os.path.abspath(__file__)), '..'
 import output_proofs  # noqa: E402
 import tokenizer_proofs  # noqa: E402
 import outtext_proofs  # noqa: E402
+import end_proof  # noqa: E402
 NEED_OPTIONS = True
-PROOFS = output_proofs.select(['add_text_ignored']) + tokenizer_proofs.select(['tok_layout', 'parse_off_newlines', 'parse_newline']) + [outtext_proofs.iteration_proof()]
+PROOFS = output_proofs.select(['add_text_ignored']) + tokenizer_proofs.select(['tok_layout', 'parse_off_newlines', 'parse_newline', 'parse_next_head']) + [outtext_proofs.iteration_proof(), end_proof.end_proof()]
 EXPLANATION = ('Kernel of C07: add_text(text, is_ignored=true) hands text[0..n) to write_char unchanged and in order and touches neither cpd.column, cpd.spaces nor '
                'cpd.last_char (frame); the blank-line path of parse_ignored (parse_off_newlines) consumes only blanks and terminators and reports their exact count.')
-K = ['K2 add_text(is_ignored): raw emission, frame excludes column logic', 'K1b parse_off_newlines: only blanks/terminators consumed, nl_count exact',
+K = ['K2 add_text(is_ignored): raw emission, frame excludes column logic', 'K5 parse_next (head): while cpd.unc_off is set parse_ignored is the first tokenizer tried, and when it takes the text no other tokenizer is consulted; outside a region it is not consulted',
+     'K6 uncrustify_end: cpd.unc_off is cleared after every file (a region left open does not disable processing of the next file)',
+     'K1b parse_off_newlines: only blanks/terminators consumed, nl_count exact',
      'K3 output_text (one iteration of the chunk loop): a CT_IGNORED / CT_JUNK chunk is written by exactly one add_text(str, is_ignored=true) and nothing else (no output_to_column, no add_char, column/pending blanks/line state untouched)']
 G = ['parse_ignored line path (pc.str == data[old idx .. new idx), no CR/LF inside): not yet under contract',
-     'parse_next tries parse_ignored first while cpd.unc_off',
      'no later pass edits or deletes CT_IGNORED chunks or inserts chunks between them (the two defects quoted in the property live there and are not in this kernel)',
      'write_char encodes each code point exactly (C09)']
 MACRO_HEADERS = ['output_macros.h', 'tokenizer_macros.h']
